@@ -874,6 +874,31 @@ func checkC15(c *Ctx) {
 			c.Distinct(fmt.Sprintf("%s/%s/len%d/%s", cs.Format, cs.Path, cs.LenCls, cs.Coord))
 		}
 	})
+	// some of the cases once more with the process temp directory somewhere awkward (see withTmpdirVariants)
+	withTmpdirVariants(c, func(tag string) {
+		m := len(cases)
+		if m > 150 {
+			m = 150
+		}
+		extra := make([]*c15Fail, m)
+		parallelFor(m, func(i int) {
+			func() {
+				defer func() {
+					if p := recover(); p != nil {
+						extra[i] = &c15Fail{"", "panic", fmt.Sprint(p), -1}
+					}
+				}()
+				extra[i] = c15Run(c, cases[i*(len(cases)/m)], dir, st)
+			}()
+			c.Eval(1)
+		})
+		for i, f := range extra {
+			if f != nil && fails[i*(len(cases)/m)] == nil {
+				f.detail += " [" + tag + "]"
+				fails[i*(len(cases)/m)] = f
+			}
+		}
+	})
 	os.Stdout = realStdout
 	logF.Close()
 
